@@ -466,3 +466,42 @@ func randDoRule(r *rand.Rand, o ProgOpts, p ProgramV, head PredSig, aggPreds map
 	cl := ClauseV{Head: headL, Body: body, Transforms: [][]StmtV{stmts}}
 	return cl, true
 }
+
+// RandKnotProgram builds a densely mutually recursive, negation-free program over
+// unary predicates on a tiny domain: k IDB predicates in (mostly) one strongly connected
+// component, each with 1-3 rules whose bodies hold one or two IDB atoms on the head
+// variable and sometimes the base predicate. Used to exercise cycle cuts and memo tables.
+func RandKnotProgram(r *rand.Rand) ProgramV {
+	var p ProgramV
+	p.Preds = append(p.Preds, PredSig{Name: "e0", Sorts: []string{"num"}})
+	for _, n := range []int64{1, 2}[:1+r.Intn(2)] {
+		p.Facts = append(p.Facts, AtomV{P: "e0", Args: []Val{Num(n)}})
+	}
+	k := 3 + r.Intn(5)
+	for i := 0; i < k; i++ {
+		p.Preds = append(p.Preds, PredSig{Name: fmt.Sprintf("p%d", i), Sorts: []string{"num"}, IDB: true, Level: 1})
+	}
+	x := VarT("X")
+	atom := func(name string) LitV { return LitV{K: "atom", Pred: name, Args: []TermV{x}} }
+	grounded := r.Intn(k)
+	for i := 0; i < k; i++ {
+		nr := 1 + r.Intn(3)
+		var rules []ClauseV
+		for j := 0; j < nr; j++ {
+			c := ClauseV{Head: atom(fmt.Sprintf("p%d", i))}
+			for n := 1 + r.Intn(2); n > 0; n-- {
+				c.Body = append(c.Body, atom(fmt.Sprintf("p%d", r.Intn(k))))
+			}
+			if r.Intn(4) == 0 {
+				c.Body = append(c.Body, atom("e0"))
+			}
+			rules = append(rules, c)
+		}
+		if i == grounded || r.Intn(5) == 0 {
+			rules = append(rules, ClauseV{Head: atom(fmt.Sprintf("p%d", i)), Body: []LitV{atom("e0")}})
+			r.Shuffle(len(rules), func(a, b int) { rules[a], rules[b] = rules[b], rules[a] })
+		}
+		p.Rules = append(p.Rules, rules...)
+	}
+	return p
+}
